@@ -68,6 +68,9 @@ func execDidParse(a []string) Result {
 	if err != nil {
 		return Result{Impl: "err"}
 	}
+	if !absenteeKeepsDID(string(unhexTok(a[0]))) {
+		return Result{Impl: didCanon(d), Oracle: "fail:an absentee signer made for a DID reports another DID"}
+	}
 	return Result{Impl: didCanon(d)}
 }
 
@@ -301,6 +304,11 @@ func genC14(cfg Config, emit Emit) error {
 		emit("didparse", []string{hexTok([]byte(s))}, "did-realistic", s != "")
 	}
 	genDidRead(cfg, emit)
+	for _, wh := range []string{"verifier", "signer"} {
+		for n := 0; n <= 3; n++ {
+			emit("rsatag", []string{wh, itoa(n)}, "rsa-tag", n > 0)
+		}
+	}
 	for i := 0; i < 300; i++ {
 		// a did:key of random bytes behind each multicodec tag
 		tag := [][]byte{{0xed, 0x01}, {0x85, 0x24}, {0x9d, 0x1a}, {0x00}, {0xe7, 0x01}}[i%5]
